@@ -19,7 +19,9 @@ var termCountRe = regexp.MustCompile(`(^|\.)(len\([A-Za-z_.φ0-9\[\]]*\.Terminal
 func ruleBOUNDARY(c *Ctx, pkgs ...string) {
 	const rule = "BOUNDARY(terminals)"
 	n := 0
-	isT := func(s string) bool { return termCountRe.MatchString(s) && !strings.Contains(s, " - ") && !strings.Contains(s, " + ") }
+	isT := func(s string) bool {
+		return termCountRe.MatchString(s) && !strings.Contains(s, " - ") && !strings.Contains(s, " + ")
+	}
 	for _, rel := range pkgs {
 		for _, f := range c.SrcFuncs(rel) {
 			ord := map[string]int{}
